@@ -505,6 +505,8 @@ package otp
 //@ |   qget(r.RawQuery, "secret") == p.Secret && qget(r.RawQuery, "issuer") == p.Issuer &&
 //@ |   qget(r.RawQuery, "algorithm") == algname(p.Algorithm) && qget(r.RawQuery, "digits") == dec(p.Digits == 0 ? 6 : p.Digits)
 
+// the library's URLs have only Scheme, Host, Path and RawQuery set
+//@ macro urlplain(r) = r.Opaque == "" && r.User == nil && r.RawPath == "" && !r.OmitHost && !r.ForceQuery && r.Fragment == "" && r.RawFragment == ""
 //@ func otp.generateOTPURL(kind, param, extraParams) (r, err)
 //@   requires !qhas(extraParams, "secret") && !qhas(extraParams, "issuer") && !qhas(extraParams, "algorithm") && !qhas(extraParams, "digits")
 //@   loop 1 invariant qval(query, "secret") == param.Secret && qval(query, "issuer") == param.Issuer &&
@@ -515,13 +517,16 @@ package otp
 //@   ensures[verdict] (err == nil && r != nil) || (err != nil && r == nil)
 //@   ensures[fields] err == nil ==> urlfields(r, kind, param)
 //@   ensures[fresh] err == nil ==> fresh(r)
+//@   ensures[plain] err == nil ==> urlplain(r)
 
 //@ func otp.GenerateHOTPURL(param) (r, err)
+//@   ensures[plain] err == nil ==> urlplain(r)
 //@   ensures[verdict] (err == nil && r != nil) || (err != nil && r == nil)
 //@   ensures[iff] err == nil <==> urlok(param)
 //@   ensures[fields] err == nil ==> urlfields(r, "hotp", param)
 //@   ensures[counter] err == nil ==> qget(r.RawQuery, "counter") == "0"
 //@ func otp.GenerateTOTPURL(param) (r, err)
+//@   ensures[plain] err == nil ==> urlplain(r)
 //@   ensures[verdict] (err == nil && r != nil) || (err != nil && r == nil)
 //@   ensures[iff] err == nil <==> urlok(param)
 //@   ensures[fields] err == nil ==> urlfields(r, "totp", param)
